@@ -77,6 +77,29 @@ CHECKS['C13'] = dict(
     design='5/C13',
 )
 
+CHECKS['C06'] = dict(
+    level='exploration',
+    text=("Bounded-exhaustive: every machine-constructible meta-pattern of <=4/5 nodes (constrained metavariables, stacked "
+          "ESubst/SSubst, binders) x variable x the four Rust judgements (called through the harness on the real functions), "
+          "and Pattern.evar_is_free on the Python universe with notation. For every 'true' answer all admissible concrete "
+          "instantiations over a pool of 12 plugs are enumerated and the judgement is confirmed on the concrete instance by "
+          "ground-truth free-variable / polarity computation; notation and expansion must get the same answer."),
+    note='Trusted: mc/refpat.py (free variables, polarity, textbook instantiation). Instances that would need alpha-renaming are skipped.',
+    technique='bounded-exhaustive enumeration of (pattern, variable, judgement, instantiation) against ground truth',
+    design='5/C06',
+)
+CHECKS['C07'] = dict(
+    level='exploration',
+    text=("Bounded-exhaustive: modus_ponens on all ordered pairs of ~1150 conclusions, exists_generalization on all "
+          "(conclusion, variable), instantiate on all (conclusion, map of <=2 metavariables into a 9-plug pool, incl. "
+          "constraint-violating maps), each on BasicInterpreter and StatefulInterpreter. Oracle: the documented rule on "
+          "independently expanded terms; a call must raise or return exactly the documented conclusion."),
+    note=("Known finding (known_findings.json): instantiation with a plug that violates a declared constraint is returned "
+          "(can_be_replaced_by is a stub). Trusted: document judgements as implemented in mc/refmachine.py."),
+    technique='bounded-exhaustive enumeration of rule applications against the documented rule',
+    design='5/C07',
+)
+
 NOT_YET = {
 }
 
